@@ -14,7 +14,7 @@ THEOREMS = {
     "SpecKitV.Lemmas.MisoResidual": [
         "Miso.residual_is_norm", "Miso.residual_real_nonneg", "Miso.normal_eq_minimises", "Miso.residual_le_output",
         "Miso.solvers_agree", "Miso.exact_combination_zero", "Miso.remix_invariant", "Miso.siso_case", "model_misoResidual_toC"],
-    "SpecKitV.Props.AttrsA": ["residual_identity", "residual_eq_GyyRx"],   # residual_identity' is used by residual_eq_GyyRx (the audit regex cannot parse a primed name)
+    "SpecKitV.Props.AttrsA": ["residual_identity", "residual_identity'", "residual_eq_GyyRx"],
 }
 CONTRACTS = [
     "sympy.solve / np.linalg.solve / np.linalg.pinv return a solution H of the normal equations sum_j T_ij H_j = S_i "
